@@ -376,6 +376,7 @@ class _Eval:
         env = {}
         for i in range(self.body["argc"]):
             env[i + 1] = ("P", i)
+        self.seen = ()
         return self.block(0, env, {}, ())
 
     # ---- places / operands
@@ -557,6 +558,20 @@ class _Eval:
 
     # ---- control flow
     def block(self, bb, env, mem, effects):
+        # loop-prefix summaries: the first re-entry of a block on the current path ends the path with a LOOP leaf
+        if bb in self.seen:
+            self.paths += 1
+            if self.paths > MAX_PATHS:
+                raise GiveUp("too-many-paths")
+            return ("?", "loop@bb%d" % bb)
+        saved = self.seen
+        self.seen = saved + (bb,)
+        try:
+            return self._block(bb, env, mem, effects)
+        finally:
+            self.seen = saved
+
+    def _block(self, bb, env, mem, effects):
         self.nodes += 1
         if self.nodes > MAX_NODES:
             raise GiveUp("too-large")
